@@ -96,16 +96,23 @@ class _ComprehensionRewrite(ast.NodeTransformer):
         return ast.copy_location(ast.Call(func=ast.Name(id=helper, ctx=ast.Load()), args=args, keywords=[]), node)
 
     def visit_Compare(self, node):
-        """a in b / a not in b  ->  __pyvc_in__(a, b) / not __pyvc_in__(a, b)   (single comparison only);
-        for real operands the helper evaluates `a in b`"""
+        """a in b / a not in b  ->  __pyvc_in__(a, b) / not __pyvc_in__(a, b); a chain whose operators are
+        all in / not in and whose inner operands are plain names or attribute accesses is split into the
+        conjunction Python defines for it (a in b in c  ==  a in b and b in c).  For real operands the
+        helper evaluates `a in b`."""
         self.generic_visit(node)
-        if len(node.ops) == 1 and isinstance(node.ops[0], (ast.In, ast.NotIn)):
-            call = ast.Call(func=ast.Name(id="__pyvc_in__", ctx=ast.Load()), args=[node.left, node.comparators[0]], keywords=[])
+        if not all(isinstance(o, (ast.In, ast.NotIn)) for o in node.ops):
+            return node
+        operands = [node.left] + list(node.comparators)
+        if len(node.ops) > 1 and not all(isinstance(x, (ast.Name, ast.Attribute)) for x in operands[1:-1]):
+            return node
+        parts = []
+        for i, op in enumerate(node.ops):
+            call = ast.Call(func=ast.Name(id="__pyvc_in__", ctx=ast.Load()), args=[operands[i], operands[i + 1]], keywords=[])
+            parts.append(ast.UnaryOp(op=ast.Not(), operand=call) if isinstance(op, ast.NotIn) else call)
             self.count += 1
-            if isinstance(node.ops[0], ast.NotIn):
-                return ast.copy_location(ast.UnaryOp(op=ast.Not(), operand=call), node)
-            return ast.copy_location(call, node)
-        return node
+        out = parts[0] if len(parts) == 1 else ast.BoolOp(op=ast.And(), values=parts)
+        return ast.copy_location(out, node)
 
     def visit_ListComp(self, node):
         return self._rewrite(node, "__pyvc_listcomp__")
@@ -133,6 +140,22 @@ def load_private(modname):
     mod.__dict__["__pyvc_listcomp__"] = seqmodel.listcomp
     mod.__dict__["__pyvc_genexp__"] = seqmodel.genexp
     mod.__dict__["__pyvc_in__"] = seqmodel.contains
+    # function-local `import re` statements are resolved through the module's __builtins__: bind a
+    # copy whose __import__ hands out the `re` model (which defers to the real module on real strings)
+    import builtins as _b
+
+    from . import strmodel
+
+    bi = dict(_b.__dict__)
+    real_import = _b.__import__
+
+    def _import(nm, globals=None, locals=None, fromlist=(), level=0):  # noqa: A002
+        if nm == "re" and level == 0 and not fromlist:
+            return strmodel.RE
+        return real_import(nm, globals, locals, fromlist, level)
+
+    bi["__import__"] = _import
+    mod.__dict__["__builtins__"] = bi
     sys.modules[name] = mod
     exec(code, mod.__dict__)  # noqa: S102
     return mod
